@@ -3,7 +3,7 @@ from typing import Dict, Tuple, List, Union
 import numpy.typing as npt
 from ..util import np
 from numbers import Number
-from ..raggedshape import RaggedView2, RaggedView
+from ..raggedshape import RaggedView2, RaggedView, ViewBase
 from .base import RaggedBase
 import numpy as _np
 
@@ -35,11 +35,25 @@ class IndexableArray(RaggedBase):
         out_data = self.__build_data_from_indices_generator(index, shape.size)
         return self.__class__(out_data, shape)
 
+    @staticmethod
+    def _bounded_slice(col_slice):
+        """Clip the bounds and step of a column slice into the range of the index dtype
+
+        Python integers of any size are valid slice bounds; anything beyond the longest
+        possible row selects the same cells as the clipped value
+        """
+        bound = int(_np.iinfo(ViewBase._dtype).max//2)
+        start, stop, step = (i if i is None else max(-bound, min(bound, i))
+                             for i in (col_slice.start, col_slice.stop, col_slice.step))
+        return slice(start, stop, step)
+
     def _get_row_col_subset(self, rows, cols):
         if rows is Ellipsis:
             rows = slice(None)
         if cols is Ellipsis:
             cols = slice(None)
+        if isinstance(cols, slice):
+            cols = self._bounded_slice(cols)
         if np.issubdtype(_np.asanyarray(rows).dtype, np.integer) and np.issubdtype(_np.asanyarray(cols).dtype, np.integer):
             return self._get_element(rows, cols)
         view = self._shape.view_rows(rows)
